@@ -150,18 +150,23 @@ def replay(path, oracle, model_fn='showRun', imports=IMPORTS):
 
 
 # ------------------------------------------------------------------ helpers for oracles (exact arithmetic on dumps)
+INF = 'inf'
+
+
 def gper(sd, b):
-    mw, d, a = F(sd['mw']), F(sd['dens']), F(sd['act'])
+    """grams per one unit of b (None: the substance has no such measure; INF: infinitely dense, i.e. no volume)"""
+    mw, a = F(sd['mw']), F(sd['act'])
+    d = None if str(sd['dens']) == 'inf' else F(sd['dens'])
     if sd['kind'] == 'Enzyme':
-        return {'g': F(1), 'U': 1 / a, 'L': 1000 * d / a, 'mol': None}[b]
-    return {'g': F(1), 'mol': mw, 'L': 1000 * d, 'U': None}[b]
+        return {'g': F(1), 'U': 1 / a, 'L': INF if d is None else 1000 * d / a, 'mol': None}[b]
+    return {'g': F(1), 'mol': mw, 'L': INF if d is None else 1000 * d, 'U': None}[b]
 
 
 def amount_in(sd, stored, b, mol_mult=F(1, 10**6)):
     """stored amount (storage moles, or activity units) of substance sd in base unit b; None-quantities are 0"""
     base = 'U' if sd['kind'] == 'Enzyme' else 'mol'
     x, y = gper(sd, base), gper(sd, b)
-    if y is None:
+    if y is None or y == INF:
         return F(0)
     amt = stored if sd['kind'] == 'Enzyme' else stored * mol_mult
     return amt * x / y
@@ -188,3 +193,72 @@ def all_dumps(prog, obs):
             for v, x in o['out']:
                 d[v] = x
     return d
+
+
+# ------------------------------------------------------------------ the same histories under another configuration (oracle only)
+def write_config(d, overrides):
+    import yaml
+    base = yaml.safe_load(open(os.path.join(common.REPO, 'pyplate', 'pyplate.yaml')))
+    base.update(overrides)
+    os.makedirs(d, exist_ok=True)
+    with open(os.path.join(d, 'pyplate.yaml'), 'w') as f:
+        f.write(yaml.safe_dump(base))
+
+
+def run_variant(progs, overrides, tag, factory_density=False):
+    """run programs in a separate process under pyplate.yaml + overrides (storage units must stay umol / uL so that the dumps keep
+    their meaning); returns the observations per program"""
+    import subprocess, shutil
+    d = os.path.join(common.BUILD, 'cfg', tag)
+    shutil.rmtree(d, ignore_errors=True)
+    write_config(d, overrides)
+    json.dump({'progs': progs, 'recipes': [], 'factory_density': factory_density}, open(os.path.join(d, 'job.json'), 'w'))
+    env = dict(os.environ, PYPLATE_CONFIG=d)
+    p = subprocess.run(['/venv/bin/python', os.path.join(common.VERIF, 'harness', 'cfgworker.py'), os.path.join(d, 'job.json'), os.path.join(d, 'out.json')],
+                       env=env, stdout=subprocess.PIPE, stderr=subprocess.STDOUT, text=True, timeout=1200)
+    if p.returncode != 0:
+        raise RuntimeError('worker failed under %s: %s' % (overrides, p.stdout[-600:]))
+    from props import C18
+    out = C18.dec(json.load(open(os.path.join(d, 'out.json'))))
+    shutil.rmtree(d, ignore_errors=True)
+    return out['progs']
+
+
+VARIANTS = [('display mL / mmol', {'volume_display_unit': 'mL', 'moles_display_unit': 'mmol'}, None),
+            ('default densities 2 g/mL and 50 U/mL', {'default_solid_density': 2.0, 'default_enzyme_density': 50.0}, ('2', '50')),
+            ('solids and enzymes without volume (default densities inf)', {'default_solid_density': float('inf'), 'default_enzyme_density': float('inf')}, ('inf', 'inf'))]
+
+
+def variants(chk, gens, oracle, tag, limit=12):
+    """the first histories again under configurations that differ in display units / default densities: the property oracle only
+    (the substances are made by the library's factories; the oracle's densities are the configured ones)"""
+    n = 0
+    for name, overrides, dens in VARIANTS:
+        progs = []
+        for g in gens[:limit]:
+            prog = json.loads(json.dumps(g.prog() if hasattr(g, 'prog') else g))
+            if dens:
+                for sd in prog['subs']:
+                    if sd['kind'] == 'Solid':
+                        sd['dens'] = dens[0]
+                    elif sd['kind'] == 'Enzyme':
+                        sd['dens'] = dens[1]
+            progs.append(prog)
+        try:
+            allobs = run_variant(progs, overrides, tag + '_' + str(n), factory_density=bool(dens))
+        except Exception as e:  # noqa
+            chk.violation(f"histories could not be run under configuration '{name}': {e}", {'relation': 'configuration variant ' + name}, found_input=False)
+            continue
+        for prog, obs in zip(progs, allobs):
+            n += len(prog['ops'])
+            try:
+                fails = oracle(prog, obs, None)
+            except Exception:  # noqa
+                import traceback
+                fails = [(0, 'oracle crashed under a configuration variant: ' + traceback.format_exc()[-300:])]
+            if fails:
+                chk.violation(f"under configuration '{name}': " + fails[0][1],
+                              {'program': prog, 'configuration': {k: str(v) for k, v in overrides.items()}, 'factory_density': bool(dens),
+                               'failures': [list(x) for x in fails[:5]]})
+                break
+    return n
